@@ -30,6 +30,8 @@ mod c14;
 mod dce;
 mod gocomp;
 mod namecat;
+mod patpos;
+mod patrule;
 mod nametest;
 mod gopp;
 mod probe;
@@ -75,6 +77,7 @@ fn main() {
         "solve" => solve::main(&args),
         "gopp" => gopp::main(&args),
         "namecat" => namecat::main(&args),
+        "patpos" => patpos::main(&args),
         "probe" => probe::main(&args),
         "stages" => probe::stages(&args),
         "golden" => probe::golden(&args),
